@@ -18,8 +18,8 @@ import time
 VERIF = os.path.dirname(os.path.dirname(os.path.abspath(__file__)))
 REPO = os.environ.get("HGV_REPO", "/repo")
 CACHE = os.path.join(VERIF, ".cache")
-OBJ = os.path.join(CACHE, "obj")
-GEN = os.path.join(CACHE, "gen")
+OBJ = os.environ.get("HGV_OBJ_CACHE") or os.path.join(CACHE, "obj")
+GEN = os.path.join(os.path.dirname(OBJ), "gen")
 SITE = "/venv/lib/python3.12/site-packages"
 CXX = "g++"
 
@@ -75,7 +75,7 @@ def flags(extra=()):
     return [
         "-std=c++23", "-O0", "-w", "-g0", "-fno-var-tracking",
         "-I", GEN, "-I", REPO + "/include", "-I", REPO + "/include/third_party",
-        "-I", REPO + "/src", "-I", SITE + "/pyarrow/include", "-I", VERIF + "/cxx",
+        "-I", REPO + "/src", "-I", SITE + "/pyarrow/include",
         "-DFMT_HEADER_ONLY", "-DSPDLOG_HEADER_ONLY", "-DSPDLOG_FMT_EXTERNAL",
         "-DHGRAPH_STATIC_DEFINE", "-DHGRAPH_TIME_ZONE_BACKEND_STD=1",
     ] + list(extra)
@@ -115,12 +115,19 @@ def parse_depfile(path):
     return sorted(set(p for p in rest.split() if p))
 
 
+def _norm(p):
+    """Paths enter the key relative to the tree root, so a scratch copy of the tree
+    (HGV_REPO=...) shares objects with /repo for every file it has not changed."""
+    return p.replace(REPO + "/", "$REPO/").replace(VERIF + "/", "$VERIF/")
+
+
 def key_for(src_abs, deps, fl):
     h = hashlib.sha256()
-    h.update(" ".join(fl).encode())
+    h.update(_norm(" ".join(fl)).encode())
+    h.update(_norm(src_abs).encode())
     h.update(file_hash(src_abs).encode())
     for d in deps:
-        h.update(d.encode())
+        h.update(_norm(d).encode())
         h.update(file_hash(d).encode())
     return h.hexdigest()[:32]
 
@@ -165,15 +172,20 @@ def build_objects(srcs, jobs=16, verbose=True):
     """srcs: list of absolute paths.  Returns ({src: obj}, {src: errlog}, n_compiled)."""
     gen_dir()
     db = DepDB()
-    fl = flags()
+    base = flags()
+    drv = flags(["-I", VERIF + "/cxx"])
+
+    def fl_for(s):
+        return base if s.startswith(REPO + "/") else drv
     objs, errs = {}, {}
     compiled = 0
     t0 = time.time()
     todo = []
     for s in srcs:
-        deps = db.db.get(s)
+        deps = db.db.get(_norm(s))
         if deps is not None:
-            key = key_for(s, deps, fl)
+            deps = [d.replace("$REPO/", REPO + "/").replace("$VERIF/", VERIF + "/") for d in deps]
+            key = key_for(s, deps, fl_for(s))
             obj = os.path.join(OBJ, key + ".o")
             if os.path.exists(obj):
                 objs[s] = obj
@@ -184,7 +196,7 @@ def build_objects(srcs, jobs=16, verbose=True):
     # slowest first
     todo.sort(key=lambda s: (0 if "operators" in s else 1, s))
     with cf.ThreadPoolExecutor(max_workers=jobs) as ex:
-        futs = {ex.submit(compile_one, s, fl, None): s for s in todo}
+        futs = {ex.submit(compile_one, s, fl_for(s), None): s for s in todo}
         for fu in cf.as_completed(futs):
             s = futs[fu]
             obj, deps, log = fu.result()
@@ -192,7 +204,7 @@ def build_objects(srcs, jobs=16, verbose=True):
                 errs[s] = log
             else:
                 objs[s] = obj
-                db.db[s] = deps
+                db.db[_norm(s)] = [_norm(d) for d in deps]
                 compiled += 1
     if todo:
         db.save()
